@@ -14,6 +14,20 @@ deserialize_value at most |bs|/2+1 times and stream.read at most twice per call,
 stream for more than the 1 MiB cap, gets back at most |bs| bytes, and returns only base types and
 instances of registered classes; decoding the same shape with 4x the elements costs at most ~7x the time.  Wall time and tracemalloc peak per input are MEASURED against
 c*|bs| and reported (notes); they are not proved.
+Cost by operation count (serlib.count_ops: number of function-call events under sys.setprofile — every Python
+function entered, every C function called from Python code, including __eq__/__hash__ entered from inside a
+dict/set insertion; deterministic, independent of machine load): at most OPS_PER_BYTE*|bs| + OPS_CONST for EVERY
+input of the main loop, and for containers (seq, set, map keys, map values, a set inside an object field) of every
+element kind (scalars of each width, floats, str, bytes, class instances with different / partly equal / equal /
+default / nested fields, enum members with legal, arbitrary, str, enum and object values, nested containers) the count
+at 4n elements is at most OPS_SCALE times the count at n, and the bound holds at the cap of 16384 elements
+(container_cost).  The same shapes with few elements go through the model comparison (family `container`).
+Hostile persistent streams (persist_hostile): Serializable.load_persistant on valid records written under other id
+assignments, their truncations and bit flips, crafted tables (count / id / name of every value kind, duplicates,
+one id for every class, 16384 entries) and random bytes — terminates, documented exception kinds, closed result,
+operation bound.  Process-level state clause: after every input of every family (deserialize_value, load_persistant,
+the two handshake receivers) the serializer's process-wide tables and class attributes are what they were
+(serlib.table_fingerprint per input, serlib.process_state per phase).
 """
 import io, os, sys, time, struct, signal, tracemalloc
 from harness import lib
@@ -28,7 +42,11 @@ RULE = ("inputs = random byte strings (type-id biased) + EVERY truncation and EV
         "values -2^63..2^63-1 around 0, the caps 2^14 and 2^20, and the width limits) + nesting of seq/map/set/enum/object to "
         "depth 1..100, 150, 400, 2000, 3000 with the frames pinned just below / at / above what the depth needs + unknown type "
         "ids (all 65536 in the thorough tier); non-trivial = the input is not a valid encoding (error outcome, or decodes with "
-        "bytes left over or to a different value than the corpus item)")
+        "bytes left over or to a different value than the corpus item); containers seq/set/map-key/map-value/set-in-object-field x 33 "
+        "element kinds (scalars, floats, str, bytes, class instances with different/equal/default/nested fields, enum members with "
+        "legal/arbitrary/str/enum/object values, nested containers) at 2 and 24 elements against the model and at 64/256/16384 elements "
+        "by python-level operation count (and wall clock for six of them); hostile persistent streams for load_persistant (records "
+        "written under other id assignments, every 3rd truncation, sampled bit flips, crafted count/id/name tables, random bytes)")
 ASSUMPTIONS = [
     "io.BytesIO.read(n) returns min(n, left) bytes (all of them for n < 0) and allocates only what it returns (CPython)",
     "dict/set insertion is one step per element: CPython hashing is not modelled (str/bytes hashes are randomised per process; "
@@ -47,6 +65,8 @@ ASSUMPTIONS = [
     "(excluded_enum_hash_collision), checked to agree up to that point, and excluded",
 ]
 TRUSTED = [
+    "operation count = sys.setprofile call events: work done inside one C call without calling anything (probing inside a dict/set "
+    "with colliding hashes, memcpy of a long bytes value) is invisible to it; that part is covered by the wall-clock measurements only",
     "CPython struct/io.BytesIO/dict/set, cryptography's DER parser: modelled or recorded, compared differentially, not verified",
     "wall time and tracemalloc peak are measurements over the generated inputs, not theorems",
 ]
